@@ -70,9 +70,13 @@ static bool refNode(const Node& n, const std::vector<Dual>& val, const std::vect
     case MUL_SE: out = mul(konst(c, nv), *A); return true;
     case DIV_SE: if (std::fabs(A->v) < 0.05) return false; out = dvd(konst(c, nv), *A); return true;
     case NEG: out = un(*A, -A->v, -1.0); return true;
-    case POW_ES: if (A->v < 0.05) return false; out = un(*A, std::pow(A->v, c), c * std::pow(A->v, c - 1.0)); return true;
+    case POW_ES:
+        // a base of exactly zero with an exponent above one: x^c and every partial derivative of it are 0 there
+        if (A->v == 0.0 && c > 1.0) { out = un(*A, 0.0, 0.0); return true; }
+        if (A->v < 0.05) return false; out = un(*A, std::pow(A->v, c), c * std::pow(A->v, c - 1.0)); return true;
     case POW_SE: { double b = std::fabs(c) + 0.1; if (std::fabs(A->v) > 8) return false; double p = std::pow(b, A->v); out = un(*A, p, std::log(b) * p); return true; }
     case POW_EE: {
+        if (A->v == 0.0 && B->v > 1.0 && B->v <= 6) { out = un(*A, 0.0, 0.0); return true; }    // f^g with f = 0, g > 1: value and gradient vanish
         if (A->v < 0.05 || std::fabs(B->v) > 6) return false;
         double p = std::pow(A->v, B->v);
         out = *A; out.v = p;
@@ -217,6 +221,8 @@ static Case genCase(Rng& rng, int maxNodes) {
     for (int i = 0; i < cs.nv; i++) {
         double x = rng.uniform(-3, 3);
         if (rng.chance(0.5)) x = rng.uniform(0.2, 2.5);
+        // special points: an input of exactly 0 (zero-base branches of pow, products with zero) or exactly 1
+        if (rng.chance(0.06)) x = rng.chance(0.7) ? 0.0 : 1.0;
         cs.x.push_back(x);
         Dual d = konst(x, cs.nv); d.d[i] = 1.0; vars.push_back(d);
     }
